@@ -102,6 +102,10 @@ type pathState struct {
 	observed  []string
 	assertsSkipped int
 	known     map[*Term]bool
+	anyMany   bool
+	dom       map[*Term]*[4]uint64 // possible values of 8-bit variables under the single-variable constraints asserted so far
+	mixed     map[*Term]bool       // variable occurs in an asserted constraint together with other variables
+	domHits   int
 	symbolic  bool // took at least one solver-decided branch
 	knownHit  string
 }
@@ -124,6 +128,113 @@ func (p *pathState) note(c *Term, v bool) {
 	}
 }
 
+// ---- small-domain reasoning: conditions over one 8-bit (or boolean) variable are decided by
+// evaluating them on every value the variable can still take ----
+
+func fullDom(w uint16) *[4]uint64 {
+	d := &[4]uint64{}
+	n := 256
+	if w == SortBool {
+		n = 2
+	} else if w < 8 {
+		n = 1 << w
+	}
+	for v := 0; v < n; v++ {
+		d[v>>6] |= 1 << uint(v&63)
+	}
+	return d
+}
+
+func smallVar(v *Term) bool { return v.w == SortBool || (v.w >= 1 && v.w <= 8) }
+
+// truthTable evaluates c on every value of v in dom; returns counts and a witness for each side.
+func truthTable(c, v *Term, dom *[4]uint64) (nTrue, nFalse int, wTrue, wFalse uint64) {
+	m := Model{}
+	for val := 0; val < 256; val++ {
+		if dom[val>>6]&(1<<uint(val&63)) == 0 {
+			continue
+		}
+		m[v] = uint64(val)
+		if Eval(c, m, map[*Term]uint64{}) != 0 {
+			if nTrue == 0 {
+				wTrue = uint64(val)
+			}
+			nTrue++
+		} else {
+			if nFalse == 0 {
+				wFalse = uint64(val)
+			}
+			nFalse++
+		}
+	}
+	return
+}
+
+// noteConstraint refines the domains with an asserted constraint.
+func (p *pathState) noteConstraint(c *Term) {
+	vars, many := c.Support()
+	if many || len(vars) == 0 {
+		// the variables are unknown here (too many): nothing can be said about them any more;
+		// mark conservatively by flagging the whole path
+		if many {
+			p.anyMany = true
+		}
+		return
+	}
+	if p.dom == nil {
+		p.dom = make(map[*Term]*[4]uint64)
+		p.mixed = make(map[*Term]bool)
+	}
+	if len(vars) == 1 && smallVar(vars[0]) {
+		v := vars[0]
+		d := p.dom[v]
+		if d == nil {
+			d = fullDom(v.w)
+			p.dom[v] = d
+		}
+		m := Model{}
+		for val := 0; val < 256; val++ {
+			if d[val>>6]&(1<<uint(val&63)) == 0 {
+				continue
+			}
+			m[v] = uint64(val)
+			if Eval(c, m, map[*Term]uint64{}) == 0 {
+				d[val>>6] &^= 1 << uint(val&63)
+			}
+		}
+		return
+	}
+	for _, v := range vars {
+		p.mixed[v] = true
+	}
+}
+
+// domDecide tries to decide a branch condition without the solver. ok=false: not applicable.
+func (p *pathState) domDecide(c *Term) (tOK, fOK bool, wTrue, wFalse uint64, v *Term, ok bool) {
+	if p.anyMany {
+		return
+	}
+	vars, many := c.Support()
+	if many || len(vars) != 1 || !smallVar(vars[0]) {
+		return
+	}
+	v = vars[0]
+	d := (*[4]uint64)(nil)
+	if p.dom != nil {
+		d = p.dom[v]
+	}
+	if d == nil {
+		d = fullDom(v.w)
+	}
+	nT, nF, wT, wF := truthTable(c, v, d)
+	if nT > 0 && nF > 0 && p.mixed != nil && p.mixed[v] {
+		// other constraints tie v to other variables: the domain over-approximates; only
+		// one-sided answers are sound
+		return
+	}
+	return nT > 0, nF > 0, wT, wF, v, true
+}
+
 func (p *pathState) setModel(m Model) {
 	p.model = m
 	p.memo = make(map[*Term]uint64)
@@ -139,6 +250,14 @@ func (fr *frame) decide(c value) bool {
 	panic(fmt.Sprintf("decide: %T", c))
 }
 
+// assertPC adds a constraint to the path condition (solver + small-domain bookkeeping).
+func (in *interpreter) assertPC(c *Term) {
+	in.solver.Assert(c)
+	if in.path != nil {
+		in.path.noteConstraint(c)
+	}
+}
+
 // branch forks on a symbolic condition.
 func (in *interpreter) branch(c *Term) bool {
 	p := in.path
@@ -152,9 +271,9 @@ func (in *interpreter) branch(c *Term) bool {
 		p.model = nil
 		p.decisions = append(p.decisions, dec{v: out})
 		if out == 1 {
-			in.solver.Assert(c)
+			in.assertPC(c)
 		} else {
-			in.solver.Assert(ts.BNot(c))
+			in.assertPC(ts.BNot(c))
 		}
 		p.symbolic = true
 		p.note(c, out == 1)
@@ -174,7 +293,38 @@ func (in *interpreter) branch(c *Term) bool {
 	}
 	var tOK, fOK, haveT, haveF bool
 	var tModel, fModel Model
-	if p.model != nil {
+	if dT, dF, wT, wF, dv, ok := p.domDecide(c); ok && in.cfg.Replay == nil {
+		p.domHits++
+		haveT, haveF = true, true
+		tOK, fOK = dT, dF
+		// models: keep the current one on the side it satisfies, patch the variable for the other
+		patch := func(w uint64) Model {
+			if p.model == nil {
+				return nil
+			}
+			m := make(Model, len(p.model)+1)
+			for k, x := range p.model {
+				m[k] = x
+			}
+			m[dv] = w
+			return m
+		}
+		if p.model != nil && (p.mixed == nil || !p.mixed[dv]) {
+			tModel, fModel = patch(wT), patch(wF)
+			if Eval(c, p.model, p.memo) != 0 {
+				tModel = p.model
+			} else {
+				fModel = p.model
+			}
+		} else if p.model != nil {
+			// v is tied to other variables: only the side the current model satisfies keeps a model
+			if Eval(c, p.model, p.memo) != 0 {
+				tModel = p.model
+			} else {
+				fModel = p.model
+			}
+		}
+	} else if p.model != nil {
 		if Eval(c, p.model, p.memo) != 0 {
 			tOK, haveT, tModel = true, true, p.model
 		} else {
@@ -200,6 +350,9 @@ func (in *interpreter) branch(c *Term) bool {
 		p.symbolic = true
 		// continue with the side consistent with the cached model, fork the other
 		takeTrue := haveT || !haveF
+		if haveT && haveF && p.model != nil {
+			takeTrue = Eval(c, p.model, p.memo) != 0
+		}
 		other := int64(0)
 		if !takeTrue {
 			other = 1
@@ -208,25 +361,25 @@ func (in *interpreter) branch(c *Term) bool {
 		p.forks = append(p.forks, fork)
 		if takeTrue {
 			p.decisions = append(p.decisions, dec{v: 1})
-			in.solver.Assert(c)
+			in.assertPC(c)
 			p.setModel(tModel)
 			p.note(c, true)
 			return true
 		}
 		p.decisions = append(p.decisions, dec{v: 0})
-		in.solver.Assert(ts.BNot(c))
+		in.assertPC(ts.BNot(c))
 		p.setModel(fModel)
 		p.note(c, false)
 		return false
 	case tOK:
 		p.decisions = append(p.decisions, dec{v: 1})
-		in.solver.Assert(c)
+		in.assertPC(c)
 		p.setModel(tModel)
 		p.note(c, true)
 		return true
 	case fOK:
 		p.decisions = append(p.decisions, dec{v: 0})
-		in.solver.Assert(ts.BNot(c))
+		in.assertPC(ts.BNot(c))
 		p.setModel(fModel)
 		p.note(c, false)
 		return false
@@ -297,14 +450,14 @@ func (in *interpreter) concretize(fr *frame, t *Term) int64 {
 		if !d.isExcl {
 			p.pos++
 			p.decisions = append(p.decisions, d)
-			in.solver.Assert(eqc(d.v))
+			in.assertPC(eqc(d.v))
 			p.symbolic = true
 			return d.v
 		}
 		// last prefix entry: pick a value outside the exclusion list
 		excl = d.excl
 		for _, x := range excl {
-			in.solver.Assert(ts.BNot(eqc(x)))
+			in.assertPC(ts.BNot(eqc(x)))
 		}
 		p.model = nil
 	}
@@ -325,7 +478,7 @@ func (in *interpreter) concretize(fr *frame, t *Term) int64 {
 		p.forks = append(p.forks, append(append([]dec{}, p.decisions...), dec{isExcl: true, excl: nexcl}))
 	}
 	p.decisions = append(p.decisions, dec{v: v})
-	in.solver.Assert(eqc(v))
+	in.assertPC(eqc(v))
 	return v
 }
 
@@ -421,12 +574,30 @@ func (in *interpreter) assume(c value) {
 	case *Term:
 		p := in.path
 		if p.pos < len(p.prefix) {
-			in.solver.Assert(c)
+			in.assertPC(c)
 			p.model = nil
 			return
 		}
 		if p.model != nil && Eval(c, p.model, p.memo) != 0 {
-			in.solver.Assert(c)
+			in.assertPC(c)
+			return
+		}
+		if dT, _, wT, _, dv, ok := p.domDecide(c); ok && in.cfg.Replay == nil {
+			if !dT {
+				panic(pathEnd{kind: endInfeasible, msg: "assumption infeasible"})
+			}
+			in.assertPC(c)
+			// the cached model does not satisfy c: patch it if the variable is independent
+			if p.model != nil && (p.mixed == nil || !p.mixed[dv]) {
+				m := make(Model, len(p.model)+1)
+				for k, x := range p.model {
+					m[k] = x
+				}
+				m[dv] = wT
+				p.setModel(m)
+			} else {
+				p.model = nil
+			}
 			return
 		}
 		r, m := in.solver.Check(c, true)
@@ -436,7 +607,7 @@ func (in *interpreter) assume(c value) {
 		case Unknown:
 			panic(engineError{"solver returned unknown on an assumption"})
 		}
-		in.solver.Assert(c)
+		in.assertPC(c)
 		p.setModel(m)
 	}
 }
@@ -468,6 +639,11 @@ func ndAssert(fr *frame, args []value) value {
 		if p.model != nil && Eval(c, p.model, p.memo) == 0 {
 			panic(pathEnd{kind: endViolation, label: label, msg: "assertion failed: " + label})
 		}
+		if _, dF, _, _, _, ok := p.domDecide(c); ok && !dF && in.cfg.Replay == nil {
+			// true for every value the variable can take on this path
+			in.assertPC(c)
+			return nil
+		}
 		r, m := in.solver.Check(in.ts.BNot(c), true)
 		switch r {
 		case Sat:
@@ -479,7 +655,7 @@ func ndAssert(fr *frame, args []value) value {
 		case Unknown:
 			panic(engineError{"solver returned unknown on assertion " + label})
 		}
-		in.solver.Assert(c)
+		in.assertPC(c)
 	}
 	return nil
 }
@@ -490,8 +666,10 @@ func ndKnown(fr *frame, args []value) value {
 	id := args[0].(string)
 	cond := args[1]
 	if in.cfg.Confirm == id {
-		in.assume(cond)
-		in.path.knownHit = id
+		// confirmation run: nothing is assumed; a path on which the predicate holds is marked
+		if fr.decide(cond) {
+			in.path.knownHit = id
+		}
 		return nil
 	}
 	if in.cfg.Known[id] {
